@@ -14,6 +14,7 @@ import itertools
 
 import core
 import trees
+import gen_c01
 
 IMPORTS = 'From EP Require Import C01.Model C01.Run.'
 AXES = ['self', 'child', 'descendant', 'descendant-or-self', 'parent', 'ancestor', 'ancestor-or-self',
@@ -165,7 +166,9 @@ def run(chk):
               'elementpath/xpath_tokens/axes.py', 'elementpath/xpath1/_xpath1_functions.py', 'elementpath/xpath_selectors.py'):
         chk.record_source(f)
     chk.forbidden_scan(['C01'])
-    proved = chk.prove(['theories/C01/Model.v', 'theories/C01/Proofs.v', 'theories/C01/Run.v'], 'theories/C01/Properties.v')
+    gen_c01.generate()          # source-shape facts regenerated from /repo on every run
+    chk.trusted.append('harness/shape.py: AST lookup of the statements mirrored by the hand model (Gen/C01Shape.v)')
+    proved = chk.prove(['theories/Gen/C01Shape.v', 'theories/C01/Model.v', 'theories/C01/Proofs.v', 'theories/C01/Run.v'], 'theories/C01/Properties.v')
     model_ok = True
     if not proved:
         try:
@@ -225,6 +228,24 @@ def run(chk):
             jobs.append((ti, 'ctx', [(a, ('node',), [('gt', 1), ('last',)])]))
             jobs.append((ti, 'ctx', [(a, ('node',), [('gt', 1), ('le', 2), ('pos', 1)])]))
 
+    # documents with comments / PIs before and after the root element (lxml only: xml.etree cannot hold them): every axis
+    # from every node, and random paths
+    prepost = {}
+    for k in range(4 if quick else 150):
+        t = trees.random_tree(rng, maxnodes=rng.choice([3, 6, 9]), names=('a', 'b', 'x', 'y'))
+        t.tail = None
+        mk = lambda: rng.choice([trees.T('c', text='k'), trees.T('p', target=rng.choice(['pi', 'alpha']), text='d')])
+        prepost[len(tlist)] = ([mk() for _ in range(rng.randint(0, 2))], [mk() for _ in range(rng.randint(1, 2))])
+        tlist.append(t)
+        for a in AXES:
+            jobs.append((len(tlist) - 1, 'ctx', [(a, ('node',), [])]))
+        for _ in range(4 if quick else 10):
+            jobs.append((len(tlist) - 1, rng.choice(['ctx', 'ctx', 'root']), random_steps(rng, rng.randint(1, 3))))
+
+    def ser(ti):
+        pre, post = prepost.get(ti, ((), ()))
+        return ''.join(trees.serialize(x) for x in pre) + trees.serialize(tlist[ti]) + ''.join(trees.serialize(x) for x in post)
+
     # ---- build documents once per (tree, lib)
     built = {}
 
@@ -235,7 +256,7 @@ def run(chk):
             if lib == 'et':
                 root = ET.ElementTree(trees.to_et(t))
             else:
-                root = trees.to_lxml(t).getroottree()
+                root = trees.to_lxml(t, *prepost.get(ti, ((), ()))).getroottree()
             node = get_node_tree(root)
             nodes = list(node.iter())
             built[key] = (root, node, nodes, doc_of(nodes))
@@ -243,7 +264,7 @@ def run(chk):
 
     terms, meta = [], []
     for ji, (ti, start, steps) in enumerate(jobs):
-        _, _, nodes, doc = get(ti, 'et')
+        _, _, nodes, doc = get(ti, 'lxml' if ti in prepost else 'et')
         terms.append(f'run_all {doc_coq(doc)} {"FromRoot" if start == "root" else "FromContext"} {steps_coq(steps)}')
     model = core.run_coq_cases('C01', IMPORTS, terms, chunk=120, tag='paths') if model_ok else [None] * len(jobs)
 
@@ -252,9 +273,9 @@ def run(chk):
     for ji, (ti, start, steps) in enumerate(jobs):
         text_full = ('/' if start == 'root' else '') + steps_str(steps)
         text_abbr = ('/' if start == 'root' else '') + steps_str(steps, abbreviate=True)
-        for lib in ('et', 'lxml'):
+        for lib in (('lxml',) if ti in prepost else ('et', 'lxml')):
             root, node, nodes, doc = get(ti, lib)
-            if lib == 'lxml' and doc != get(ti, 'et')[3]:
+            if lib == 'lxml' and ti not in prepost and doc != get(ti, 'et')[3]:
                 chk.violation('impl-vs-spec', {'tree': repr(tlist[ti])[:400]}, 'xml.etree and lxml node sequences differ')
                 continue
             index = {id(n): i for i, n in enumerate(nodes)}
@@ -273,7 +294,7 @@ def run(chk):
                         continue
                     for ci in ctxs:
                         chk.evaluations += 1
-                        desc = {'lib': lib, 'version': v, 'path': text, 'context_index': ci, 'tree': trees.serialize(tlist[ti])[:500]}
+                        desc = {'lib': lib, 'version': v, 'path': text, 'context_index': ci, 'tree': ser(ti)[:500]}
                         try:
                             res = [index.get(id(x), -7) for x in tok.select(XPathContext(node, item=nodes[ci]))]
                         except ElementPathError as e:
@@ -287,10 +308,10 @@ def run(chk):
                         if res != mo:
                             chk.corr_fail.append((desc, res, mo))
                         if res != want:
-                            if res == mo:
-                                # the deviation the faithful model predicts: following:: from a non-element context node /
-                                # preceding:: from an attribute or namespace node somewhere in the path
-                                chk.known('C01-following-preceding-from-non-element', desc | {'impl': res, 'spec': want})
+                            if res == mo and 'following::' in text:
+                                # the deviation the faithful model predicts: following:: from an attribute or namespace
+                                # node somewhere in the path
+                                chk.known('C01-following-from-attribute-or-namespace', desc | {'impl': res, 'spec': want})
                             else:
                                 chk.violation('impl-vs-spec', desc, {'impl': res, 'spec': want, 'model': mo})
                         if want and len(steps) >= 1:
